@@ -291,52 +291,109 @@ def _check_whole_input(ctx, model):
            "Parser.__call__ can return a result although input is left over "
            "(the return is not dominated by the is_at_end() test)")
     # whitespace is the only tag filtered out
-    src = ast.unparse(fn)
-    ok = "if tag is not _whitespace" in src
+    # (every filter on the token stream compares the tag with _whitespace)
+    filters = []
+    for n in ast.walk(fn):
+        if isinstance(n, (ast.ListComp, ast.GeneratorExp)):
+            for g in n.generators:
+                filters.extend(g.ifs)
+    ok = bool(filters)
+    for t in filters:
+        good = isinstance(t, ast.Compare) and len(t.ops) == 1 and isinstance(
+            t.ops[0], (ast.IsNot, ast.NotEq)) and isinstance(
+            t.comparators[0], ast.Name) and t.comparators[0].id == "_whitespace"
+        ok = ok and good
+    if not filters:
+        # an explicit loop that skips tokens: not a shape the rule reads
+        raise AnalysisError("Parser.__call__: token filter not found")
     ctx.ob("P/Parser.__call__/only-whitespace-dropped", ok, loc,
            "only whitespace tokens are dropped" if ok else
            "the token filter in Parser.__call__ drops more than whitespace")
 
 
 def _check_arglist(ctx, model):
+    """path rule over one round of the argument loop: an argument is a keyword
+    argument exactly when an identifier is followed by '='; its name is read
+    before the two tokens are consumed; a positional argument after a keyword
+    argument is refused; both kinds are parsed below comma level"""
+    from ..summary import facts_of
     owner, fn = model.require_method(f"{PARSER}:Parser", "parse_arglist")
     loc = owner.module.loc(fn)
-    src = ast.unparse(fn)
-    # keyword detection: identifier followed by assign
-    kw_test = None
-    for n in ast.walk(fn):
-        if isinstance(n, ast.If) and "_assign" in ast.unparse(n.test):
-            kw_test = n
-    ok = False
-    if kw_test is not None:
-        t = ast.unparse(kw_test.test).replace(" ", "")
-        ok = ("pstate.next_tag()is_identifier" in t and
-              ("pstate.next_tag(1)==_assign" in t
-               or "pstate.next_tag(1)is_assign" in t))
-        body = "\n".join(ast.unparse(s) for s in kw_test.body)
-        ok = ok and "kwargs[kw] = self.parse_expression(pstate, _PREC_COMMA)" in body
-        # two advances: the name and the '='
-        ok = ok and body.count("pstate.advance()") == 2
-        els = "\n".join(ast.unparse(s) for s in kw_test.orelse)
-        reject = "if kwargs:" in els and "raise_parse_error" in els
-        ctx.ob("P/parse_arglist/positional-after-keyword", reject, loc,
-               "positional argument after a keyword argument is rejected"
-               if reject else
-               "parse_arglist accepts a positional argument after a keyword "
-               "argument (Python rejects it)")
-        okp = "args.append(self.parse_expression(pstate, _PREC_COMMA))" in els
-        ctx.ob("P/parse_arglist/positional", okp, loc,
-               "positional arguments are parsed below comma level, in order"
-               if okp else "positional argument parsing changed")
-    ctx.ob("P/parse_arglist/keyword-detection", ok, loc,
-           "name '=' value is a keyword argument" if ok else
-           "keyword-argument detection (identifier followed by '=') changed")
+    P = ("param", fn.args.args[1].arg)
+    pname = fn.args.args[1].arg
+    VAL = ("call", "self.parse_expression", (P, ("global", "_PREC_COMMA")), ())
+
+    def tag_fact(v, ahead, tagname):
+        if not (isinstance(v, tuple) and v[0] == "compare"
+                and v[1] in (("Is",), ("Eq",)) and v[3] == (("global", tagname),)):
+            return False
+        c = v[2]
+        want_args = () if ahead == 0 else (("const", ahead),)
+        return c[0] == "call" and c[1] == f"{pname}.next_tag" and \
+            c[2] == want_args
+
+    n_kw = n_pos = 0
+    kw_ok = pos_ok = reject_ok = True
+    list_name = dict_name = None
+    for ps in summarize(fn, node_param=False, loop_mode="1"):
+        facts = [f for _, pol, c in ps.conds if isinstance(c, tuple)
+                 for f in facts_of(c, pol)]
+        is_ident = any(p_ and tag_fact(v, 0, "_identifier") for v, p_ in facts)
+        is_assign = any(p_ and tag_fact(v, 1, "_assign") for v, p_ in facts)
+        evs = ps.events
+        for i, e in enumerate(evs):
+            if e.kind == "itemwrite" and e.value == VAL:
+                n_kw += 1
+                dict_name = e.name
+                key = e.args[0]
+                named = key[0] == "call" and key[1] == f"{pname}.next_str"
+                # the name is read first, then exactly two tokens are consumed,
+                # then the value is parsed
+                idx_str = [j for j, x in enumerate(evs) if x.kind == "call"
+                           and x.name == f"{pname}.next_str"]
+                idx_val = [j for j, x in enumerate(evs) if x.kind == "selfcall"
+                           and x.name == "parse_expression"]
+                adv = 0
+                if idx_str and idx_val:
+                    adv = sum(1 for x in evs[idx_str[-1]:idx_val[-1]]
+                              if x.kind == "call" and x.name == f"{pname}.advance")
+                if not (is_ident and is_assign and named and adv == 2):
+                    kw_ok = False
+            if e.kind == "call" and e.name.endswith(".append") and \
+                    e.args == (VAL,):
+                n_pos += 1
+                list_name = e.name[:-len(".append")]
+                if is_ident and is_assign:
+                    pos_ok = False
+                # a positional argument is taken only when no keyword argument
+                # has been seen (the dict is known to be empty on the path) or
+                # after the refusal has been issued
+                known_empty = any(not p_ and isinstance(v, tuple) and v[0] in (
+                    "litdict", "dict", "dictextend") for v, p_ in facts)
+                refused = any(x.kind == "call" and x.name ==
+                              f"{pname}.raise_parse_error" and "keyword" in
+                              str(x.args) for x in evs[:i])
+                if not (known_empty or refused):
+                    reject_ok = False
+    ctx.ob("P/parse_arglist/keyword-detection", kw_ok and n_kw >= 1, loc,
+           "name '=' value is a keyword argument" if kw_ok and n_kw else
+           "keyword-argument detection (identifier followed by '=', name read "
+           "before both tokens are consumed) changed")
+    ctx.ob("P/parse_arglist/positional", pos_ok and n_pos >= 1, loc,
+           "positional arguments are parsed below comma level, in order"
+           if pos_ok and n_pos else "positional argument parsing changed")
+    ctx.ob("P/parse_arglist/positional-after-keyword", reject_ok and n_pos >= 1,
+           loc, "positional argument after a keyword argument is rejected"
+           if reject_ok else
+           "parse_arglist accepts a positional argument after a keyword "
+           "argument (Python rejects it)")
     rets = [n for n in ast.walk(fn) if isinstance(n, ast.Return)]
-    ok = bool(rets) and all(ast.unparse(r.value).replace(" ", "") ==
-                            "(tuple(args),kwargs)" for r in rets)
+    want = {f"(tuple({list_name}),{dict_name})"}
+    ok = bool(rets) and all(ast.unparse(r.value).replace(" ", "") in want
+                            for r in rets)
     ctx.ob("P/parse_arglist/result", ok, loc,
            "returns (tuple(args), kwargs)" if ok else
-           "parse_arglist does not return (tuple(args), kwargs)")
+           "parse_arglist does not return (tuple(<positional>), <keyword>)")
 
 
 # ---------------------------------------------------------------------------
